@@ -56,13 +56,24 @@ class FsMon:
     def install(self):
         mon = self
 
+        def at(args):
+            # os.remove / os.rmdir / os.mkdir audit args are (path, [mode,] dir_fd); shutil.rmtree deletes
+            # relative to a directory descriptor, so resolve it to see crash points inside a tree removal
+            path, dir_fd = args[0], args[-1]
+            if isinstance(dir_fd, int) and dir_fd >= 0 and not os.path.isabs(os.fspath(path)):
+                try:
+                    return os.path.join(os.readlink(f"/proc/self/fd/{dir_fd}"), os.fspath(path))
+                except OSError:
+                    return path
+            return path
+
         def hook(ev, args):
             if ev == "os.mkdir":
-                mon.event("mkdir", args[0])
+                mon.event("mkdir", at(args))
             elif ev == "os.remove":
-                mon.event("unlink", args[0])
+                mon.event("unlink", at(args))
             elif ev == "os.rmdir":
-                mon.event("rmdir", args[0])
+                mon.event("rmdir", at(args))
             elif ev == "os.rename":
                 mon.event("rename", args[0], args[1])
             elif ev == "shutil.rmtree":
